@@ -357,4 +357,26 @@ func registerU256Intrinsics(e *Engine) {
 		p.u256Set(a[0], F.Extract(F.Ite(F.Eq(m, z), z, F.BvURem(F.BvMul(x, y), m)), 255, 0))
 		return a[0]
 	})
+	// conversions between math/big (an SMT integer) and uint256 (four limbs)
+	r("SetFromBig", func(p *Path, _ *frame, fn *ssa.Function, a []Value, _ ssa.CallInstruction) Value {
+		F := p.F
+		b := p.bigGet(a[1])
+		if b.Op == term.OBv2Nat && b.Args[0].Sort.W <= 256 {
+			// the big integer was built from a machine word: no integer arithmetic needed
+			p.u256Set(a[0], F.Resize(b.Args[0], 256, false))
+			return F.False()
+		}
+		abs := p.intAbs(b)
+		low := F.Int2Bv(F.IMod(abs, F.IntConst(pow2(256))), 256)
+		neg := F.ILt(b, F.IntConst64(0))
+		p.u256Set(a[0], F.Ite(neg, F.BvNeg(low), low))
+		return F.ILe(F.IntConst(pow2(256)), abs)
+	})
+	r("ToBig", func(p *Path, _ *frame, fn *ssa.Function, a []Value, _ ssa.CallInstruction) Value {
+		if isNilPtr(a[0]) {
+			return &Ptr{}
+		}
+		t := deref(fn.Signature.Results().At(0).Type())
+		return p.newBig(p.F.Bv2Nat(p.u256Get(a[0])), t)
+	})
 }
